@@ -668,10 +668,10 @@ func (e *Engine) appendOp(c *Config, cc *CallCtx, s *SliceV, more Value) Value {
 	grow := And(c.g, Not(And(fits, Not(isNilTerm(s.Base)))))
 	if !grow.IsFalse() {
 		// new backing array: concrete capacity = bound on old len + bound on appended, doubled once
-		n := sMax + mMax
-		if n < 2*sMax {
-			n = 2 * sMax
+		if ub, ok := upperBound(s.Len); ok && ub < sMax {
+			sMax = ub
 		}
+		n := sMax + mMax
 		if n == 0 {
 			n = 1
 		}
